@@ -746,7 +746,7 @@ func runST(id string, c *Case) string {
 			if !xBefore && rerr == nil && !(c.Kind == "file" && false) {
 				fail(id, "failed-push-fetchable", tag+"Push failed ("+res+") but Fetch succeeds", c)
 			}
-			if c.Kind != "file" && lAfter != lBefore {
+			if lAfter != lBefore { // (file store: the partial file of a failed push is removed again)
 				fail(id, "failed-push-stored", tag+"Push failed ("+res+") but the stored blobs changed: "+lBefore+" -> "+lAfter, c)
 			}
 		}
@@ -1477,7 +1477,7 @@ func main() {
 	}
 	r := run.Rand
 	exhaustive(run.Scale(4, 8))
-	n := run.Scale(8000, 300000)
+	n := run.Scale(8000, 200000)
 	for i := 0; i < n; i++ {
 		switch k := r.Intn(20); {
 		case k < 3:
@@ -1501,10 +1501,10 @@ func main() {
 	for i := 0; i < run.Scale(10, 100); i++ {
 		runCase(genBig(r, common.Pick(r, []string{"oci", "file", "mem"})))
 	}
-	for i := 0; i < run.Scale(400, 20000); i++ {
+	for i := 0; i < run.Scale(400, 6000); i++ {
 		runCase(genConcurrent(r, common.Pick(r, []string{"oci", "oci", "mem", "lim1000000"})))
 	}
-	for i := 0; i < run.Scale(700, 30000); i++ {
+	for i := 0; i < run.Scale(700, 15000); i++ {
 		runCase(genProxy(r))
 	}
 	for i := 0; i < run.Scale(300, 15000); i++ {
